@@ -58,6 +58,14 @@ def configs(tier):
     for mode, spec, cloud in [("Diffuse", "mono", "none"), ("Diffuse", "power", "mono"), ("Target", "power", "map"), ("Target", "mono", "none")]:
         out.append(dict(mode=mode, spectrum=spec, cloud=cloud, optical=True, radio=True, n=60, extra=nd, tag="nondefault"))
     out.append(dict(mode="Diffuse", spectrum="power", cloud="map", optical=True, radio=True, n=60, extra=nd2, tag="nondefault2"))
+    # zero / empty values in header-mapped fields (a truthiness test instead of a presence test would lose them)
+    zeros = {
+        "title": "",
+        "detector": {"name": "", "initial_position": {"latitude": 0.0, "longitude": 0.0}, "radio": {"snr_threshold": 0.0, "gain": 0.0, "low_frequency": 0.0}},
+        "simulation": {"ionosphere": {"total_electron_error": 0.0}, "spectrum": {"index": 0.0}},
+    }
+    out.append(dict(mode="Diffuse", spectrum="power", cloud="none", optical=True, radio=True, n=60, extra=zeros, tag="zeros"))
+    out.append(dict(mode="Target", spectrum="power", cloud="mono", optical=True, radio=True, n=60, extra=zeros, tag="zeros"))
     if tier == "thorough":
         for alt, seed in itertools.product((33.0, 2000.0), (1, 2)):
             out.append(dict(mode="Diffuse", spectrum="power", cloud="mono", optical=True, radio=True, n=60, altitude=alt, extra=None, tag=f"alt{alt}", seed=seed))
@@ -203,6 +211,64 @@ def judge(spec):
     return out, n_items
 
 
+def judge_cli(spec):
+    """the `nuspacesim run` command: the file it writes must hold, bit for bit, the table compute() produced"""
+    import dask
+    from astropy.table import Table
+    from click.testing import CliRunner
+
+    import nuspacesim.apps.run as R
+    from nuspacesim.config import create_toml
+
+    from .. import own
+
+    kw = {k: v for k, v in spec.items() if k not in ("tag", "seed")}
+    cfg = sim.make_config(**kw)
+    tmp = tempfile.mkdtemp(prefix="nssmc_c16cli_")
+    out = []
+    n_items = 0
+    real = R.compute
+    cap = {}
+
+    def capture(*a, **k):
+        t = real(*a, **k)
+        cap["t"] = t.copy()
+        return t
+
+    try:
+        toml = os.path.join(tmp, "c.toml")
+        fn = os.path.join(tmp, "out.fits")
+        create_toml(toml, cfg)
+        R.compute = capture
+        with warnings.catch_warnings():
+            warnings.simplefilter("ignore")
+            with own.frozen_clock(), own.null_progress(), dask.config.set(scheduler="synchronous"):
+                np.random.seed(5)
+                res = CliRunner().invoke(R.run, [toml, "-o", fn])
+        if res.exit_code != 0 or "t" not in cap:
+            return [("cli_run_completes", "exit 0", f"exit {res.exit_code}: {str(res.exception)[:120]}")], 1
+        if not os.path.exists(fn):
+            return [("cli_writes_result_file", fn, "missing")], 1
+        with warnings.catch_warnings():
+            warnings.simplefilter("ignore")
+            r = Table.read(fn, format="fits")
+        t = cap["t"]
+        if list(r.colnames) != list(t.colnames):
+            out.append(("cli_columns_present", list(t.colnames), list(r.colnames)))
+        from astropy.time import Time as _T
+
+        for name in t.colnames:
+            n_items += 1
+            if name in r.colnames:
+                a, b = col_bytes(t[name]), col_bytes(r[name], time_like=isinstance(t[name], _T))
+                if a != b:
+                    out.append(("cli_column_bitwise", f"{name} {a[1]} {a[2]}", f"{b[1]} {b[2]} differs"))
+    finally:
+        R.compute = real
+        shutil.rmtree(tmp, ignore_errors=True)
+    return out, n_items
+
+
 def _paths(d, prefix=""):
     out = set()
     for k, v in d.items():
@@ -228,9 +294,14 @@ def run(ctx):
             ctx.violation(c, {"spec": spec, "item": str(e)[:80]}, e, o)
         if i in (0, len(cs) - 2):
             ctx.sample({k: spec[k] for k in ("mode", "spectrum", "cloud", "optical", "radio", "tag")})
+    for spec in [dict(mode="Diffuse", spectrum="mono", cloud="none", optical=True, radio=True, n=60, tag="cli"), dict(mode="Target", spectrum="power", cloud="mono", optical=True, radio=True, n=150, tag="cli")]:
+        v, n = judge_cli(spec)
+        ctx.tick(max(n, 1), ("cli", spec["mode"]))
+        for c, e, o in v:
+            ctx.violation(c, {"spec": spec, "item": str(e)[:80], "cli": True}, e, o)
 
 
 def replay(case):
-    v, _ = judge(case["spec"])
+    v, _ = judge_cli(case["spec"]) if case.get("cli") else judge(case["spec"])
     item = case.get("item")
     return [(c, e, o) for c, e, o in v if item is None or str(e)[:80] == item]
